@@ -123,17 +123,7 @@ def run(ctx):
                            "function allocates ->data" if allocs_data else "no allocation here")
     ctx.floor("C20 filter-bit stores", nstores, 3)
 
-    # fresh filter is all-zero: create allocates data with calloc (or memset 0 after malloc)
-    cr = fns["carquet_bloom_filter_create"]
-    zero = False
-    for a in assignments(cr.body):
-        l = a.c[0].strip()
-        if a.op == "=" and l.k == "MemberExpr" and l.name == "data":
-            zero = any(c.k == "CallExpr" and c.callee == "calloc" for c in a.c[1].walk())
-    if not zero:
-        zero = any(c.callee == "memset" and c.args()[1].cv == 0 for c in cr.calls("memset"))
-    ctx.ob("R11.zero-init", "zero-init|%s:carquet_bloom_filter_create" % BF, P.where(cr.body),
-           "a fresh filter's bits are zero-initialised", zero)
+    cr = fns["carquet_bloom_filter_create"]      # zero-initialisation is decided with the geometry below
 
     # ---- (2) insert/check symmetry
     ins, chk = fns["bloom_filter_block_insert"], fns["bloom_filter_block_check"]
@@ -403,29 +393,42 @@ def run(ctx):
            "*bytes_written = num_bytes", okbw)
 
     fd = fns["carquet_bloom_filter_from_data"]
-    cz = Canon(fd)
-    mc = fd.calls("memcpy")
-    okr = False
-    if len(mc) == 1:
-        a = [nocast(cz(x)) for x in mc[0].args()]
-        okr = a[1] == ("param", 0, "uint8_t *") and a[2] == ("param", 1, "size_t") and has_data_member(a[0])
-    ctx.ob("R6.copy", "read-verbatim|%s:carquet_bloom_filter_from_data" % BF, P.where(fd.body),
-           "from_data copies exactly `size` bytes of the input", okr)
-    nb_ok = nbytes_ok = False
-    for a in assignments(fd.body):
-        l = a.c[0].strip()
-        if l.k == "MemberExpr" and l.name == "num_blocks":
-            nb_ok = nocast(cz(a.c[1])) == ("bin", "/", ("param", 1, "size_t"), ("int", 32))
-        if l.k == "MemberExpr" and l.name == "num_bytes":
-            nbytes_ok = nocast(cz(a.c[1])) == ("param", 1, "size_t")
-    ctx.ob("R6.copy", "read-geometry|%s:carquet_bloom_filter_from_data" % BF, P.where(fd.body),
-           "from_data restores num_bytes = size and num_blocks = size / 32", nb_ok and nbytes_ok)
-    mod_guard = any(n.k == "IfStmt" and any(
-        s == ("bin", "%", ("param", 1, "size_t"), ("int", 32))
-        for s in subtrees(nocast(cz([x for x in n.c if x is not None][0]))))
-        for n in fd.body.walk())
-    ctx.ob("R6.guard", "read-size-multiple|%s:carquet_bloom_filter_from_data" % BF, P.where(fd.body),
-           "sizes that are not whole 32-byte blocks are refused", mod_guard)
+    # from_data by abstract execution over sizes: refused unless a whole number (>= 1) of 32-byte blocks;
+    # otherwise exactly `size` bytes of the input are copied into a fresh buffer of `size` bytes and
+    # num_bytes / num_blocks describe it
+    from ..rules import sem
+    rec_ = sem.field_offsets(P, "carquet_bloom_filter")
+    badf = None
+    try:
+        for S in (0, 1, 31, 32, 33, 63, 64, 96, 100, 1024):
+            def alloc(kind):
+                def f(ev, a, it, kind=kind):
+                    n_ = a[0] if kind == "malloc" else (a[0] * a[1] if isinstance(a[0], int) and isinstance(a[1], int) else None)
+                    k_ = len([e for e in ev if e[0] == "alloc"])
+                    ev.append(("alloc", n_))
+                    return sem.Ptr("filter" if k_ == 0 else "data", 0, 1)
+                return f
+            paths = sem.run(P, fd, [sem.Ptr("input", 0, 1), S], heap0={}, single=False, hooks={
+                "malloc": alloc("malloc"), "calloc": alloc("calloc"), "free": lambda ev, a, it: 0,
+                "memcpy": lambda ev, a, it: ev.append(("copy", getattr(a[0], "base", a[0]), getattr(a[1], "base", a[1]), a[2])) or 0})
+            valid = S >= 32 and S % 32 == 0
+            for ret, ev, heap in paths:
+                if not valid:
+                    okf = ret in (0, None) or not isinstance(ret, sem.Ptr)
+                else:
+                    allocs = [e for e in ev if e[0] == "alloc"]
+                    okf = (isinstance(ret, sem.Ptr) and len(allocs) == 2 and allocs[1][1] == S
+                           and ("copy", "data", "input", S) in ev
+                           and heap.get(("filter", rec_["num_bytes"])) == S and heap.get(("filter", rec_["num_blocks"])) == S // 32)
+                if not okf and badf is None:
+                    badf = "size %d: returns %s after %s; num_bytes %s num_blocks %s" % (
+                        S, ret, ev, heap.get(("filter", rec_["num_bytes"])), heap.get(("filter", rec_["num_blocks"])))
+        ctx.ob("R6.copy", "read-verbatim|%s:carquet_bloom_filter_from_data" % BF, P.where(fd.body),
+               "from_data refuses sizes that are not whole 32-byte blocks and otherwise copies exactly `size` input bytes "
+               "into a buffer of `size` bytes described by num_bytes = size, num_blocks = size / 32 (10 sizes)",
+               badf is None, badf or "")
+    except sem.Inconclusive as ex:
+        ctx.inconclusive("R6.copy", "read-verbatim|%s:carquet_bloom_filter_from_data" % BF, P.where(fd.body), "abstract execution", str(ex))
     rd = fns["carquet_bloom_filter_read"]
     okrd = len(rd.calls("carquet_bloom_filter_from_data")) == 1 and any(
         nocast(Canon(rd)(c.args()[0])) == ("param", 1, "uint8_t *") and
@@ -519,6 +522,16 @@ def run(ctx):
     for (op, v), n in fp.items():
         fpu[(op, u(v))] += n
     nmiss = 0
+    present = set()
+    for f_ in P.funcs_in(XX):
+        for n_ in f_.body.walk():
+            if n_.cv is not None:
+                present.add(u(n_.cv))
+    for _, g_ in P.globals:
+        if P.rel(g_["file"]) == XX and g_.get("init") is not None:
+            for n_ in g_["init"].walk():
+                if n_.cv is not None:
+                    present.add(u(n_.cv))
     for (op, v), need_n in sorted(SPEC_XXH.items(), key=repr):
         have = fpu.get((op, v), 0)
         if op == "-" and have < need_n:
@@ -526,9 +539,17 @@ def run(ctx):
             have = fpu.get(("+", u(-v)), 0)
         ok = have >= need_n
         nmiss += 0 if ok else 1
-        ctx.ob("R5.spec", "xxh64-const|%s|%s %#x" % (XX, op, v), P.rel(xf.file),
-               "XXH64 uses (%s, %#x) at >= %d site(s) (helpers expanded per call site)" % (op, v, need_n),
-               ok, "found %d" % have)
+        key_ = "xxh64-const|%s|%s %#x" % (XX, op, v)
+        what_ = "XXH64 uses (%s, %#x) at >= %d site(s) (helpers expanded per call site)" % (op, v, need_n)
+        if ok:
+            ctx.ok("R5.spec", key_, P.rel(xf.file), what_, "found %d" % have)
+        elif u(v) not in present:
+            ctx.bad("R5.spec", key_, P.rel(xf.file), what_, "the constant %#x does not occur in %s at all" % (v, XX))
+        else:
+            # the constant is there but used through another shape (a lane loop, a rotation table): the
+            # per-site count cannot be compared
+            ctx.inconclusive("R5.spec", key_, P.rel(xf.file), what_,
+                             "found %d site(s); the constant occurs elsewhere in the file" % have)
     ctx.count("xxh64_fingerprint_pairs", len(fp))
     ctx.floor("XXH64 constant sites", sum(fp.values()), 40)
     _xxh64_schedule(ctx, xf)
